@@ -288,6 +288,7 @@ def build(ctx, cfg):
     ctx.input("tid", p.tid0[:N])
     ctx.input("lid", p.lid0[:N])
     ctx.input("cus", p.cus0[:N])
+    ctx.input("succ_order", g.order_log)
     ctx.input("max_tid", p.maxt)
     ctx.input("max_lid", p.maxl)
     ctx.input("seg", [p.seg0[idx] for idx in np.ndindex(*shape)])
@@ -544,7 +545,7 @@ def _harness(ctx, cfg):
         ctx.oblige("C20.payload", payload_ok, "C20")
     ctx.witness("state_changed", Not(And(S.same_graph(S0, S1), S.same_attrs(S0, S1), seg_same(p.seg0, seg1))))
 
-    if want("C01") or want("C07") or want("C08") or want("C09") or want("C20"):
+    if want("C01") or want("C07") or want("C08") or want("C09") or want("C20") or want("C06"):
         del p.emitted[:]
         try:
             r1 = tr.undo()
@@ -574,6 +575,9 @@ def _harness(ctx, cfg):
             ctx.oblige("C07.redo_repaints_array", seg_same(seg1, seg3), "C07")
         post_obligations(":after_undo", S2, seg2)
         post_obligations(":after_redo", S3, seg3)
+        if want("C06"):
+            ctx.oblige("C06.lookups_after_undo", And(S.c06_lookups(S2, k, True), S2.wf, S.c06_fresh(S2, True)), "C06")
+            ctx.oblige("C06.lookups_after_redo", And(S.c06_lookups(S3, k, True), S3.wf, S.c06_fresh(S3, True)), "C06")
         if want("C20"):
             ctx.oblige("C20.undo_one_refresh", len(e2) == 1 and len(e3) == 1, "C20")
 
